@@ -530,7 +530,7 @@ def grid_grep_names(env, tier):
             fn = n + SUFFIX[sfx_fmt]
             three = [("p0.xz", "xz", "N1", "ok"), (fn, sfx_fmt, "N2", "ok"), ("q9.xz", "xz", "N3", "ok")]
             nm3 = [f[0] for f in three]
-            every = T or fn.startswith("-")
+            every = (T and sfx_fmt == "xz") or fn.startswith("-")
 
             def styles(default):
                 return ("dd", "plain") if every else (default,)
